@@ -251,6 +251,10 @@ impl Transcode for IdxU8 {
 /// how a filled target is printed (only the first `depth` slots of index targets are meaningful)
 pub trait ShowTarget {
     fn show(&self, depth: usize) -> String;
+    /// look the filled target up again as a key of `M` (None: the target carries no key)
+    fn relookup<M: TreeKey + ?Sized>(&self, _depth: usize) -> Option<Result<Node, Traversal>> {
+        None
+    }
 }
 impl ShowTarget for () {
     fn show(&self, _d: usize) -> String {
@@ -261,11 +265,17 @@ impl ShowTarget for Packed {
     fn show(&self, _d: usize) -> String {
         format!("Q:{}", self.get())
     }
+    fn relookup<M: TreeKey + ?Sized>(&self, _d: usize) -> Option<Result<Node, Traversal>> {
+        Some(M::transcode::<(), _>(*self).map(|x| x.1))
+    }
 }
 impl ShowTarget for IdxT {
     fn show(&self, d: usize) -> String {
         let v: Vec<String> = self.0 .0.iter().take(d).map(|i| i.to_string()).collect();
         format!("I:{}", v.join(","))
+    }
+    fn relookup<M: TreeKey + ?Sized>(&self, d: usize) -> Option<Result<Node, Traversal>> {
+        Some(M::transcode::<(), _>(self.0 .0.iter().take(d).copied()).map(|x| x.1))
     }
 }
 impl ShowTarget for IdxU8 {
@@ -279,20 +289,32 @@ impl<const D: usize> ShowTarget for Indices<[usize; D]> {
         let v: Vec<String> = self.0.iter().take(d).map(|i| i.to_string()).collect();
         format!("I:{}", v.join(","))
     }
+    fn relookup<M: TreeKey + ?Sized>(&self, d: usize) -> Option<Result<Node, Traversal>> {
+        Some(M::transcode::<(), _>(self.0.iter().take(d).copied()).map(|x| x.1))
+    }
 }
 impl<const S: char> ShowTarget for Path<CapString, S> {
     fn show(&self, _d: usize) -> String {
         format!("P:{}", enc_str(&self.0.buf))
+    }
+    fn relookup<M: TreeKey + ?Sized>(&self, _d: usize) -> Option<Result<Node, Traversal>> {
+        Some(M::transcode::<(), _>(Path::<&str, S>(self.0.buf.as_str())).map(|x| x.1))
     }
 }
 impl<const S: char, const N: usize> ShowTarget for Path<heapless::String<N>, S> {
     fn show(&self, _d: usize) -> String {
         format!("P:{}", enc_str(self.0.as_str()))
     }
+    fn relookup<M: TreeKey + ?Sized>(&self, _d: usize) -> Option<Result<Node, Traversal>> {
+        Some(M::transcode::<(), _>(Path::<&str, S>(self.0.as_str())).map(|x| x.1))
+    }
 }
 impl ShowTarget for JsonPath<CapString> {
     fn show(&self, _d: usize) -> String {
         format!("J:{}", enc_str(&self.0.buf))
+    }
+    fn relookup<M: TreeKey + ?Sized>(&self, _d: usize) -> Option<Result<Node, Traversal>> {
+        Some(M::transcode::<(), _>(&JsonPath(self.0.buf.as_str())).map(|x| x.1))
     }
 }
 
@@ -373,8 +395,16 @@ fn iter_run<M: TreeKey + ?Sized, N: Transcode + Default + ShowTarget, const D: u
         }
     };
     let mut out: Vec<String> = vec![];
+    // every yielded key is looked up again (through the key's own `IntoKeys`): it must resolve to the node it was
+    // yielded for; a disagreement is appended to the item, which neither the model nor the oracle ever print
     let item = |x: Result<(N, Node), usize>| match x {
-        Ok((n, node)) => format!("{}@{}", node_str(&Ok(node)).replace(' ', ""), n.show(node.depth())),
+        Ok((n, node)) => {
+            let again = match n.relookup::<M>(node.depth()) {
+                Some(r) if r != Ok(node) => format!("!relookup={}", node_str(&r).replace(' ', "")),
+                _ => String::new(),
+            };
+            format!("{}@{}{}", node_str(&Ok(node)).replace(' ', ""), n.show(node.depth()), again)
+        }
         Err(d) => format!("caperr{d}"),
     };
     if exact {
